@@ -17,8 +17,9 @@ class Mix:
         self.rule = " || ".join(f"[{type(p).__name__}] {p.rule}" for _, p in parts)
 
     def pick(self, seed, program):
-        if program is not None and "part" in program.get("config", {}):
-            return self.parts[program["config"]["part"]][1], program["config"]["part"]
+        if program is not None:
+            idx = program.get("config", {}).get("part", 0)      # (replay files written before a check became a mix: its first scenario)
+            return self.parts[idx][1], idx
         total = sum(w for w, _ in self.parts)
         x = seed % total
         for i, (w, p) in enumerate(self.parts):
@@ -80,6 +81,11 @@ def make(name: str, *args):
         from .lifecycle import LifecycleScenario
 
         return LifecycleScenario()
+    if name == "C01":
+        from .geometry import GeometryScenario
+
+        # the world machine, plus the geometry machine's histories (vertex / cell removal, padded and refused assignments) judged for C01
+        return Mix("C01", [(5, WorldScenario("C01")), (1, GeometryScenario("C01"))])
     if name in ("C05", "C09", "C12"):
         weights = {"C05": (3, 2), "C09": (4, 2), "C12": (3, 2)}[name]
         parts = [(weights[0], WorldScenario(name)), (weights[1], ConcatScenario(name))]
